@@ -440,7 +440,7 @@ Section ProtoProofs.
     unfold Proto.finalize_tx in H. rewrite Hl in H.
     destruct (check_ttl pk esig w r); try (inversion H; discriminate).
     rewrite Hs in H.
-    destruct (cx_pp_index c); [inversion H|].
+    destruct (cx_pp_index c); [inversion H|]. destruct (cx_late c); [inversion H|].
     destruct (finalize_core w r c true) as [[w2 t2]|e|q] eqn:Ec; inversion H; subst; try discriminate.
     clear H.
     apply finalize_core_ok in Ec as (fee & t0 & k & F). destruct F. subst fee.
@@ -470,7 +470,7 @@ Section ProtoProofs.
       rewrite (Hl c eq_refl eq_refl) in H.
       destruct (finalize_core w r c false) as [[w2 t2]|e|q]; inversion H; subst; try reflexivity.
       exfalso. eapply Hne. reflexivity.
-    - destruct (cx_pp_index c); [now inversion H|].
+    - destruct (cx_pp_index c); [now inversion H|]. destruct (cx_late c); [now inversion H|].
       destruct (finalize_core w r c true) as [[w2 t2]|e|q]; inversion H; subst; try reflexivity.
       exfalso. eapply Hne. reflexivity.
   Qed.
@@ -648,9 +648,7 @@ Section ProtoProofs.
       rewrite Hsl, Hp. subst cnew. cbn [cx_parent]. rewrite Hpc, !N.eqb_refl. cbn [andb].
       now rewrite Ht, Hc.
     - (* a reply claiming the invoice state: the context is left alone *)
-      destruct (cx_pp_index c); [inversion H; subst; now left|].
-      destruct (finalize_core w r c true) as [[w2 t2]|e|q]; inversion H; subst; try (now left).
-      exfalso. eapply Hne. reflexivity.
+      rewrite Hlate in H. destruct (cx_pp_index c); inversion H; subst; now left.
   Qed.
 End ProtoProofs.
 
